@@ -147,6 +147,7 @@ class RowView:
 class FuncRef:
   info: object  # extract.FuncInfo
   closure: dict = field(default_factory=dict)
+  defframe: object = None  # defining host frame (python late-binding closure)
 
 
 @dataclass
@@ -583,6 +584,7 @@ class Exec:
     self.hints = hints or {}
     self.inlined = set()
     self._pow2 = None
+    self.contract_mode = False
 
   # --- fresh symbols
   def fresh(self, base, kind):
@@ -991,7 +993,10 @@ class Exec:
         else:
           raise Unsupported("is")
       elif isinstance(left, Vec) or isinstance(right, Vec):
-        raise Unsupported("vector comparison")
+        if not (self.contract_mode and isinstance(left, Vec) and isinstance(right, Vec) and isinstance(op, (ast.Eq, ast.NotEq))):
+          raise Unsupported("vector comparison")
+        eq = zand(*[self.ar.compare(ast.Eq(), x, y) for x, y in zip(left.comps, right.comps)])
+        res.append(eq if isinstance(op, ast.Eq) else znot(eq))
       else:
         res.append(self.ar.compare(op, left, right))
       left = right
@@ -1109,6 +1114,8 @@ class Exec:
       raise Unsupported("wp.tid() outside an assignment")
     if fs in ("wp.printf", "wp.print", "print"):
       return None
+    if self.contract_mode and fs in ("old", "implies", "iff", "bit", "ite"):
+      return self.contract_call(fs, e, fr)
     callee = self.eval(e.func, fr)
     if e.keywords and not isinstance(callee, (FuncRef, TypeCtor)):
       kw = {k.arg: self.eval(k.value, fr) for k in e.keywords}
@@ -1116,6 +1123,30 @@ class Exec:
       kw = {k.arg: self.eval(k.value, fr) for k in e.keywords}
     args = [self.eval(a, fr) for a in e.args]
     return self.call(callee, args, kw, fr, e)
+
+  def contract_call(self, fn, e, fr):
+    if fn == "old":
+      saved = self.st.arrs
+      self.st.arrs = self.st.arrs0
+      try:
+        return self.eval(e.args[0], fr)
+      finally:
+        self.st.arrs = saved
+    a = [self.eval(x, fr) for x in e.args]
+    if fn == "implies":
+      return z3.Implies(zb(tobool(a[0])), zb(tobool(a[1])))
+    if fn == "iff":
+      return zb(tobool(a[0])) == zb(tobool(a[1]))
+    if fn == "bit":
+      x, i = a
+      if not is_conc(i):
+        raise Unsupported("bit(x, symbolic)")
+      if is_conc(x):
+        return bool((x >> i) & 1)
+      return bit_of(lift(x), int(i))
+    if fn == "ite":
+      return ite(simp_bool(tobool(a[0])), a[1], a[2])
+    raise Unsupported(fn)
 
   def eval_static(self, expr, fr):
     """wp.static(e): evaluated at kernel-build time from closure constants / module constants."""
@@ -1251,7 +1282,11 @@ class Exec:
     return nf.env.get("$retval")
 
   def closure_for(self, fref, fr):
-    c = dict(fref.closure)
+    if fref.defframe is not None:
+      c = dict(fref.defframe.closure)
+      c.update({k: v for k, v in fref.defframe.env.items() if not k.startswith("$")})
+      return c
+    c = dict(fref.closure or {})
     # a function nested in the same outer function shares the current closure
     if fref.info.parent is not None and fr.info is not None:
       p = fr.info
@@ -1299,8 +1334,17 @@ class Exec:
   def s_Continue(self, s, fr):
     fr.env["$cnt"] = simp_bool(zor(fr.env.get("$cnt", False), self.active(fr)))
 
+  def active_loop(self, fr):
+    # scalars of returned paths are dead, so only break/continue guard scalar assignments
+    g = []
+    for flag in ("$brk", "$cnt"):
+      v = fr.env.get(flag, False)
+      if v is not False:
+        g.append(znot(v))
+    return zand(*g)
+
   def assign_name(self, fr, name, val):
-    act = self.active(fr)
+    act = self.active_loop(fr)
     if act is True or name not in fr.env:
       fr.env[name] = val
     else:
@@ -1370,7 +1414,7 @@ class Exec:
     if isinstance(tgt, ast.Attribute):
       base = self.eval(tgt.value, fr)
       if isinstance(base, StructVal):
-        act = self.active(fr)
+        act = self.active_loop(fr)
         if act is True or tgt.attr not in base.fields:
           base.fields[tgt.attr] = v
         else:
@@ -1447,12 +1491,14 @@ class Exec:
       self.exec_block(s.body, fr)
     finally:
       self.st.pc.pop()
+    env_t = fr.env
     fr.env = env_e
     self.st.pc.append(znot(c))
     try:
       self.exec_block(s.orelse, fr)
     finally:
       self.st.pc.pop()
+    env_e = fr.env
     fr.env = _merge_env(c, env_t, env_e)
 
   # ------------------------------------------------------------------ loops
